@@ -12,6 +12,7 @@
 (*   ops, opts      : the --ram operations and the register / state options *)
 (*                    in command-line order (structured: the generator made *)
 (*                    the option strings from these records)                *)
+(*   stop           : the --tape-stop block number, 0 without the option      *)
 (*   experr         : "" or why the documentation makes the run fail        *)
 (*   err            : "" or the error the tool raised                       *)
 (*   obs            : every snapshot cell that differs from the baseline,   *)
@@ -55,10 +56,10 @@ JoinFlags(fs, k) == IF k > Len(DriftFlags) THEN ""
 RegNames == <<"a", "f", "bc", "de", "hl", "a2", "f2", "bc2", "de2", "hl2", "ix", "iy", "sp", "pc", "i", "r">>
 
 Judge(c) ==
-  LET env  == [mach |-> c.mach, top |-> c.top, base |-> PairF(c.base) @@ <<>>]       \* @@ makes TLC build the function once
+  LET env  == [mach |-> c.mach, top |-> c.top, base |-> PairF(c.base) @@ <<>>, stop |-> c.stop]       \* @@ makes TLC build the function once
       st   == Run(env, c.blocks, c.ops)
       dom  == DOMAIN st.m
-      fl   == st.flags \cup {c.dflags[k] : k \in DOMAIN c.dflags} \cup (IF st.err # "" THEN {st.err} ELSE {})
+      fl   == st.flags \cup {c.dflags[k] : k \in DOMAIN c.dflags} \cup (IF st.err = "no-such-block" THEN {st.err} ELSE {})
       obsC == {c.obs[k][1] : k \in DOMAIN c.obs}
       base(x) == Rd(env, <<>>, x)
       \* memory
@@ -70,7 +71,7 @@ Judge(c) ==
       want == RegView(RegRun(rf0, c.opts, 1))
       regBad == {k \in DOMAIN RegNames : want[RegNames[k]] # c.regs[RegNames[k]]}
       \* hardware state
-      hw0  == IF c.sim = 1 THEN [border |-> c.bhw.border, iff |-> c.bhw.iff1, im |-> c.bhw.im, issue2 |-> c.bhw.issue2, tstates |-> c.bhw.t,
+      hw0  == IF c.sim = 1 THEN [border |-> c.bhw.border, iff |-> c.bhw.iff1, im |-> c.bhw.im, issue2 |-> c.bhw.issue2, tstates |-> 34943,      \* the documented default also after a simulation
                                  o7ffd |-> c.bhw.o7ffd, offfd |-> c.bhw.offfd, fe |-> Max(0, c.bhw.fe), ay |-> [n \in 0..15 |-> c.bhw.ay[n + 1]]]
               ELSE HwDefault
       hw   == HwRun(hw0, c.opts, 1)
